@@ -43,6 +43,8 @@ structure Obs where
   ok : Bool
   name : String
   route : Option String
+  /-- the same connection delivered in small pieces: the model's `stream` has no delivery pattern, so this is `route` -/
+  routeChunked : Option String
 deriving BEq
 
 structure Oracles where
@@ -60,7 +62,7 @@ def readObs (j : Json) : Except String Obs := do
   let ok ← j.getObjValAs? Bool "ok"
   let name ← j.getObjValAs? String "name"
   return { size := (j.getObjValAs? Nat "size").toOption, sizeErr := optStr j "size_err", ok := ok, name := name,
-           route := optStr j "route" }
+           route := optStr j "route", routeChunked := optStr j "route_chunked" }
 
 def readOracles (j : Json) : Except String Oracles := do
   return { tlsOk := ← j.getObjValAs? Bool "tls_ok", tlsName := ← j.getObjValAs? String "tls_name",
@@ -95,17 +97,18 @@ def modelObs (b : Bytes) : Option Obs × String :=
   match sz, rs, rt, sv with
   | .panic _, _, _, _ | _, .panic _, _, _ | _, _, .panic _, _ | _, _, _, .panic _ => (none, tag)
   | sz, .ok (nm, ok), _, sv =>
+    let route := match sv with | .lookup host _ _ => some (hexEncode host) | _ => none
     (some { size := match sz with | .ok n => some n | _ => none
             sizeErr := match sz with | .reject s => some s | _ => none
-            ok := ok, name := hexEncode nm
-            route := match sv with | .lookup host _ _ => some (hexEncode host) | _ => none }, tag)
+            ok := ok, name := hexEncode nm, route := route, routeChunked := route }, tag)
 
 def obsJson (o : Option Obs) : Json :=
   match o with
   | none => panicJ
   | some o => Json.mkObj [("size", match o.size with | some n => Json.num n | none => Json.null),
       ("size_err", match o.sizeErr with | some s => Json.str s | none => Json.null),
-      ("ok", o.ok), ("name", o.name), ("route", match o.route with | some s => Json.str s | none => Json.null)]
+      ("ok", o.ok), ("name", o.name), ("route", match o.route with | some s => Json.str s | none => Json.null),
+      ("route_chunked", match o.routeChunked with | some s => Json.str s | none => Json.null)]
 
 def nonEmpty (s : String) : Option String := if s.isEmpty then none else some s
 
@@ -141,7 +144,16 @@ def specBytes (b : Bytes) (o : Obs) (orc : Oracles) : Bool :=
   -- record around it need not be complete — fabio reads the message, not the record)
   let hsLen := (b.getD 6 0).toNat * 65536 + (b.getD 7 0).toNat * 256 + (b.getD 8 0).toNat
   let framedOk := (!o.ok || framed (b.drop 5)) && (o.route.isNone || framed ((b.drop 5).take (4 + hsLen)))
-  sizeOk && routeOk && strictOk && oraclesOk && bothOk && stdOk && framedOk
+  -- "from the same bytes": the routing decision does not depend on how the bytes are delivered
+  let deliveryOk := o.routeChunked == o.route
+  -- `Props.C10Std.tls_route_agree`: what crypto/tls accepts (message complete within the first record, session id
+  -- within RFC 5246's 32 bytes) is routed by the name crypto/tls reports
+  let tlsImplies := !orc.tlsOk || match firstMessage maxRecordLen b with
+    | some msg => (match frame msg with
+      | some rh => rh.sessionId.length > 32 || o.route == nonEmpty orc.tlsName
+      | none => true)
+    | none => true
+  sizeOk && routeOk && strictOk && oraclesOk && bothOk && stdOk && framedOk && deliveryOk && tlsImplies
 
 /-- The tie of the Lean model of the oracles to the oracles themselves: `stdRoute` (Lean) and the strict reader
 of the harness (`wire.go`, Go) must agree exactly, and whenever crypto/tls accepts a hello that is complete within
